@@ -139,6 +139,59 @@ theorem parked_notified_proceeds (acts : List Act) :
     have := inv.futPc; rw [hp] at this; simpa [futOk] using this
   simp [step, rStep, hp, awaitStep, pollReady, hf, hw]
 
+/-- No deadlock at quiescence, value case: the producer has finished its call, the consumer is parked and a value is in
+the slot. Then (by `no_lost_wakeup`) it has been woken, and the poll the runtime owes it returns exactly the pending
+value: `recv` completes with `Some(slot contents)`, the slot is empty afterwards. -/
+theorem woken_consumer_receives (acts : List Act) (v : List Nat) :
+    let s := run init acts
+    s.rpc = .parked → s.slot = some v → (s.spc = .idle ∨ s.spc = .gone) →
+      s.woken = true ∧ (pollRecv s).rpc = .idle ∧ (pollRecv s).received = s.received ++ [some v] ∧
+      (pollRecv s).slot = none := by
+  intro s
+  have hnl := no_lost_wakeup acts
+  have inv : MergeChannel.Inv s := inv_reachable acts
+  have hnl' : s.rpc = .parked → (s.slot.isSome = true ∨ s.senderDropped = true) →
+      (s.waiter = .notified ∧ s.woken = true) ∨ s.spc = .modNotify true ∨ s.spc = .dropNotify := hnl
+  clear_value s
+  intro hp hs hq
+  have hf : s.fut = .waiting := by
+    have := inv.futPc; rw [hp] at this; simpa [futOk] using this
+  have hw : s.waiter = .notified ∧ s.woken = true := by
+    rcases hnl' hp (Or.inl (by simp [hs])) with h | h | h
+    · exact h
+    · rcases hq with hq | hq <;> rw [hq] at h <;> exact absurd h (by simp)
+    · rcases hq with hq | hq <;> rw [hq] at h <;> exact absurd h (by simp)
+  refine ⟨hw.2, ?_⟩
+  by_cases hperm : s.permit = true <;>
+    simp [pollRecv, settleReceiver, isSuspended, rStep, awaitStep, pollReady, pollNotified, dropNotified, enableFut,
+      hp, hf, hw.1, hs, hperm]
+
+/-- No deadlock at quiescence, close case: the producer is gone, the slot is empty, the consumer is parked. Then it has
+been woken and the poll the runtime owes it returns `None`. -/
+theorem woken_consumer_sees_close (acts : List Act) :
+    let s := run init acts
+    s.rpc = .parked → s.slot = none → s.spc = .gone →
+      s.woken = true ∧ (pollRecv s).rpc = .idle ∧ (pollRecv s).received = s.received ++ [none] := by
+  intro s
+  have hnl := no_lost_wakeup acts
+  have inv : MergeChannel.Inv s := inv_reachable acts
+  have hnl' : s.rpc = .parked → (s.slot.isSome = true ∨ s.senderDropped = true) →
+      (s.waiter = .notified ∧ s.woken = true) ∨ s.spc = .modNotify true ∨ s.spc = .dropNotify := hnl
+  clear_value s
+  intro hp hs hq
+  have hf : s.fut = .waiting := by
+    have := inv.futPc; rw [hp] at this; simpa [futOk] using this
+  have hd : s.senderDropped = true := inv.sdFlag.mpr (Or.inr hq)
+  have hw : s.waiter = .notified ∧ s.woken = true := by
+    rcases hnl' hp (Or.inr hd) with h | h | h
+    · exact h
+    · rw [hq] at h; exact absurd h (by simp)
+    · rw [hq] at h; exact absurd h (by simp)
+  refine ⟨hw.2, ?_⟩
+  by_cases hperm : s.permit = true <;>
+    simp [pollRecv, settleReceiver, isSuspended, rStep, awaitStep, pollReady, pollNotified, dropNotified, enableFut,
+      hp, hf, hw.1, hs, hperm, hd]
+
 /-- Cancelling a parked `recv()` whose notification was delivered but never observed passes the notification on:
 the permit is stored again, the value stays in the slot, the consumer is back between calls. -/
 theorem cancel_restores_permit (acts : List Act) :
@@ -191,6 +244,13 @@ example :
     let s := run init [.callRecv, .rStep, .rStep, .rStep, .rStep, .rStep, .callModify 7, .sStep, .sStep, .sStep,
       .cancel, .callRecv, .rStep, .rStep, .rStep, .rStep]
     s.received = [some [7]] ∧ s.rpc = .idle ∧ s.permit = false := by decide
+-- non-vacuity of the two quiescence theorems: parked consumer + finished `modify` / finished drop
+example :
+    let s := run init [.callRecv, .rStep, .rStep, .rStep, .rStep, .rStep, .callModify 7, .sStep, .sStep, .sStep]
+    s.rpc = .parked ∧ s.slot = some [7] ∧ s.spc = .idle ∧ (pollRecv s).received = [some [7]] := by decide
+example :
+    let s := run init [.callRecv, .rStep, .rStep, .rStep, .rStep, .rStep, .callDropSender, .sStep, .sStep]
+    s.rpc = .parked ∧ s.slot = none ∧ s.spc = .gone ∧ (pollRecv s).received = [none] := by decide
 -- the race the code comments on: the value is merged between `enable()` and the park; the poll is Ready.
 example :
     let s := run init [.callRecv, .rStep, .rStep, .rStep, .rStep, .callModify 7, .sStep, .sStep, .sStep]
@@ -527,6 +587,49 @@ theorem newest_topology_wins (slot : Option Update) (ops : List Op) :
 /-- From an empty slot: exactly the latest topology, `none` iff no topology was merged. -/
 theorem newest_topology_wins_from_empty (ops : List Op) : peersTag (applyAll none ops) = lastTopo ops := by
   rw [newest_topology_wins]; cases lastTopo ops <;> simp [peersTag]
+
+private theorem lookup_assocInsert_self (m : List (Nat × Bool)) (a : Nat) (up : Bool) :
+    (assocInsert m a up).lookup a = some up := by
+  unfold assocInsert
+  induction m with
+  | nil => simp
+  | cons p rest ih =>
+    by_cases h : p.1 = a
+    · have hb : (p.1 != a) = false := by simp [h]
+      rw [List.filter_cons, hb]; simpa using ih
+    · have hb : (p.1 != a) = true := by simp [h]
+      have hne : (a == p.1) = false := by simp; exact fun e => h e.symm
+      rw [List.filter_cons, hb]
+      show List.lookup a (p :: (List.filter (fun p => p.1 != a) rest ++ [(a, up)])) = some up
+      rw [List.lookup_cons, hne]; exact ih
+
+private theorem lookup_assocInsert_other (m : List (Nat × Bool)) (a b : Nat) (up : Bool) (hb : b ≠ a) :
+    (assocInsert m a up).lookup b = m.lookup b := by
+  unfold assocInsert
+  induction m with
+  | nil =>
+    have hne : (b == a) = false := by simp [hb]
+    simp [List.lookup, hne]
+  | cons p rest ih =>
+    by_cases h : p.1 = a
+    · have hf : (p.1 != a) = false := by simp [h]
+      have hne : (b == p.1) = false := by simp [h, hb]
+      rw [List.filter_cons, hf, List.lookup_cons, hne]; simpa using ih
+    · have hf : (p.1 != a) = true := by simp [h]
+      rw [List.filter_cons, hf]
+      show List.lookup b (p :: (List.filter (fun p => p.1 != a) rest ++ [(a, up)])) = _
+      rw [List.lookup_cons, List.lookup_cons, ih]
+
+/-- Status hints: the latest hint for an address wins, hints for other addresses are kept. -/
+theorem latest_hint_wins (slot : Option Update) (a b : Nat) (up : Bool) :
+    (hintsOf (mergeHint slot a up)).lookup a = some up ∧
+    (b ≠ a → (hintsOf (mergeHint slot a up)).lookup b = (hintsOf slot).lookup b) := by
+  constructor
+  · simp only [mergeHint, hintsOf]; exact lookup_assocInsert_self _ a up
+  · intro hb
+    simp only [mergeHint, hintsOf]
+    rw [lookup_assocInsert_other _ a b up hb]
+    cases slot <;> simp [slotMut]
 
 /-- Every merge leaves the slot full (so `Sender::modify` always notifies after a `merge_*`). -/
 theorem merge_fills_slot (slot : Option Update) (op : Op) : (apply slot op).isSome = true := by
